@@ -25,7 +25,14 @@ class LocalDeme(AbstractDeme):
 
     def run_metaepoch(self, _) -> None:
         x0 = self._sprout_seed.genome
-        fun = self._problem.evaluate
+        # scipy minimises: hand it the negated objective for maximisation problems.
+        if self._problem.maximize:
+
+            def fun(x):
+                return -self._problem.evaluate(x)
+
+        else:
+            fun = self._problem.evaluate
 
         result = sopt.minimize(
             fun,
@@ -52,5 +59,5 @@ class LocalDeme(AbstractDeme):
     def _history_callback(self, intermediate_result) -> None:
         # scipy reuses the array behind intermediate_result.x between iterations: keep a copy
         ind = Individual(intermediate_result.x.copy(), problem=self._problem)
-        ind.fitness = intermediate_result.fun
+        ind.fitness = -intermediate_result.fun if self._problem.maximize else intermediate_result.fun
         self._run_history.append(ind)
